@@ -13,6 +13,7 @@ import (
 	"strings"
 	"time"
 
+	"rivaas.dev/app"
 	"rivaas.dev/router"
 	"rivaas.dev/router/version"
 	"verif/harness/hx"
@@ -50,6 +51,7 @@ type cfgT struct {
 	Now      int64
 	LCs      []lcT
 	Compiled bool // router.WithRouteCompilation: must not change any outcome (not a model input)
+	ViaApp   bool // routes registered through app.App / app.VersionGroup (app/version_group.go): same outcome
 
 	vers []string // generator only: versions that have a tree
 }
@@ -122,9 +124,18 @@ func build(k caseT, o *obsT) (r *router.Router, err error) {
 	if k.C.Compiled {
 		ro = append(ro, router.WithRouteCompilation(true))
 	}
-	r, err = router.New(ro...)
-	if err != nil {
-		return nil, err
+	var a *app.App
+	if k.C.ViaApp {
+		a, err = app.New(app.WithServiceName("verif-c13"), app.WithServiceVersion("v0.0.0"), app.WithRouter(ro...))
+		if err != nil {
+			return nil, err
+		}
+		r = a.Router()
+	} else {
+		r, err = router.New(ro...)
+		if err != nil {
+			return nil, err
+		}
 	}
 	for _, lc := range k.C.LCs {
 		var lo []version.LifecycleOption
@@ -146,14 +157,22 @@ func build(k caseT, o *obsT) (r *router.Router, err error) {
 			o.version = c.Version()
 			_ = c.String(http.StatusOK, "ok")
 		}
-		if rt.Versioned {
+		ah := func(c *app.Context) { h(c.Context) }
+		switch {
+		case a != nil && rt.Versioned && rt.Method == "POST":
+			a.Version(rt.Ver).POST(rt.Path, ah)
+		case a != nil && rt.Versioned:
+			a.Version(rt.Ver).GET(rt.Path, ah)
+		case a != nil && rt.Method == "POST":
+			a.POST(rt.Path, ah)
+		case a != nil:
+			a.GET(rt.Path, ah)
+		case rt.Versioned:
 			r.Version(rt.Ver).Handle(rt.Method, rt.Path, h)
-		} else {
-			if rt.Method == "POST" {
-				r.POST(rt.Path, h)
-			} else {
-				r.GET(rt.Path, h)
-			}
+		case rt.Method == "POST":
+			r.POST(rt.Path, h)
+		default:
+			r.GET(rt.Path, h)
 		}
 	}
 	return r, nil
@@ -352,6 +371,9 @@ func emit(id string, k caseT, st *hx.Stats) (string, bool) {
 		}
 		if k.C.Compiled {
 			st.Count("route_compilation_on")
+		}
+		if k.C.ViaApp {
+			st.Count("registered_through_app")
 		}
 	}
 	return l.String() + hx.Comment(k), true
@@ -629,6 +651,7 @@ func genCase(r *hx.Rand) caseT {
 	c.Enforce = r.Chance(2, 3)
 	c.Now = 1750000000 + int64(r.Intn(2000))*86400
 	c.Compiled = r.Chance(1, 3)
+	c.ViaApp = r.Chance(1, 6)
 	c.LCs = []lcT{}
 	for _, v := range verPool {
 		if !r.Chance(2, 5) {
